@@ -253,6 +253,7 @@ def uuid_part(res, work, tier, rng):
     # "for every number of calls": counters positioned (through the generator's serde form) just below
     # every change of the number of decimal digits and below the binary boundaries
     starts = [10 ** k - 3 for k in range(1, 20)] + [2 ** 32 - 3, 2 ** 53 - 3, 2 ** 63 - 3, 2 ** 64 - 8, 9999 * 10 ** 4 - 2, 10 ** 8 + 10 ** 4 - 2]
+    starts += [2 ** k - 3 for k in (8, 16, 24, 31, 40, 48, 56)]         # a sequence number narrowed to fewer bits wraps here
     for i, st in enumerate(starts):
         hs.append({"ns": ["dns", "nil"][i % 2], "start": str(st), "threads": [3, 3], "sched": {"mode": "pct", "seed": seed() + i, "runs": 3 if tier == "quick" else 30}})
     hs.append({"ns": "dns", "threads": [1500 if tier == "quick" else 30000], "sched": {"mode": "random", "seed": 1, "runs": 1}})
@@ -432,7 +433,7 @@ def check_seq(prop, tier):
         # quantities and ~2^60 executed values, the recording is in the small numbers TLC evaluates
         nsc = 60 if tier == "quick" else 1500
         for i in range(nsc):
-            calls = scen.seq_history(rng, rng.range(15, 40), nids=rng.choice([3, 4, 6]), monotone_ts=(i % 2 == 0), zero_ok=(i % 3 != 0), vary_px=(i % 4 == 1))
+            calls = scen.seq_history(rng, rng.range(15, 40), nids=rng.choice([3, 4, 6]), monotone_ts=(i % 2 == 0), zero_ok=(i % 3 != 0), vary_px=(i % 4 in (1, 2)))
             for c in calls:
                 if c["op"] == "add" and c["o"]["kind"] == "Reserve" and c["o"]["amt"] == -1:
                     c["o"]["amt"] = rng.choice([1, 2, 5, 80])      # the default amount (80) is a constant: it does not scale
